@@ -154,14 +154,23 @@ func getConfigNames(s *cases.Set) {
 				Replay: map[string]interface{}{"api": "constants of type band.Name in band/band.go", "constant": ident, "value": v}})
 		}
 	}
+	for _, n := range append([]string{}, names...) {
+		// structured neighbours of every name: all of them are undefined names
+		names = append(names, bandcfg.StringNeighbours(n, names)...)
+	}
 	names = append(names, "", "eu868", "EU868 ", " EU868", "EU_868", "AS923-5", "AS923_2", "AS_923-2", "AS-923", "US915-928", "ISM_2400", "XX", strings.Repeat("A", 300))
+	seenName := map[string]bool{}
 	for _, n := range names {
 		_, err := band.GetConfig(band.Name(n), false, lorawan.DwellTimeNoLimit)
-		key := n
-		if len(key) > 40 {
-			key = key[:40] + "..."
+		key := bandcfg.KeyStr(n)
+		if len(key) > 60 {
+			key = key[:60] + "..."
 		}
-		s.Add(cases.Case{Term: fmt.Sprintf("CGetConfig %s%%string %s", bandcfg.Str(n), bandcfg.Bool(err == nil)),
+		if seenName[n] {
+			continue
+		}
+		seenName[n] = true
+		s.Add(cases.Case{Term: fmt.Sprintf("CGetConfig %s %s", bandcfg.StrTerm(n), bandcfg.Bool(err == nil)),
 			Key: "getconfig-name:" + key, Kind: "getconfig-name", Nontrivial: err == nil,
 			Replay: map[string]interface{}{"api": "band.GetConfig(name, false, DwellTimeNoLimit)", "name": n, "accepted": err == nil}})
 	}
